@@ -261,3 +261,21 @@ def nonconsecutive_sells(txs):
             if any(not (seq[p]["kind"] == "SELL" and seq[p]["ticker"] == k[0]) for p in range(ps[0], ps[-1] + 1)):
                 out.add(k)
     return out
+
+
+def sell_runs(txs):
+    """{(ticker, date): tuple of run lengths} - how that day's SELL lines of the security fall into runs of consecutive
+    lines once the ledger is stably sorted by date (the tool merges exactly such runs; per-run legs are finding F16)."""
+    order = sorted(range(len(txs)), key=lambda i: txs[i]["date"])
+    seq = [txs[i] for i in order]
+    runs = {}
+    prev = None
+    for t in seq:
+        k = (t["ticker"], t["date"]) if t["kind"] == "SELL" else None
+        if k is not None:
+            if prev == k:
+                runs[k][-1] += 1
+            else:
+                runs.setdefault(k, []).append(1)
+        prev = k
+    return {k: tuple(v) for k, v in runs.items()}
